@@ -2,6 +2,7 @@ use crate::core::{Ctx, Report};
 use serde_json::Value;
 
 pub mod bddsweep;
+pub mod c01;
 pub mod c02;
 pub mod c09;
 
@@ -13,6 +14,7 @@ pub struct Prop {
 
 pub fn registry() -> Vec<Prop> {
     vec![
+        Prop { id: "C01", run: c01::run, replay: c01::replay },
         Prop { id: "C02", run: c02::run, replay: c02::replay },
         Prop { id: "C09", run: c09::run, replay: c09::replay },
     ]
